@@ -255,6 +255,8 @@ def base_urls():
              "xn--tlrama-bvab.fr", "a.www.b.com", "www.m.a.com", "u:p@www.a.com", "a.com:8080", "a.com:80", "a.com:443", "programm.a.com", "m-x.a.com", "x-m.a.com",
              # 'amp-' at the start of an INNER label is part of a name
              "x.amp-y.a.com", "amp-x.amp-y.a.com", "www.amp-x.a.com",
+             # bracketed literals that are no IPv6 address (RFC 3986 IPvFuture): whatever holds a ':' goes back between brackets
+             "[v1.fe80::a+en1]", "u:pw@[v7.a:b]:8443", "[::1]:8080",
              # hosts made of irrelevant labels only (fully-qualified spellings: the trailing dot closes the label)
              "www.", "m.", "www.m.", "amp.", "www", "amp-"]
     # per-domain query filters: the domain itself, a subdomain, and hosts that merely END with its letters
